@@ -6,6 +6,7 @@ A history is a tuple of ops on ONE element of type T (children are fresh, childl
    ('addf', a, i)        e.add_child(child(a), forward=i)
    ('rm', j)             e.remove(j-th child of the insertion view)
    ('rep', j, b)         e.replace_child(j-th child of the insertion view, child(b))
+   ('repc', j)           e.replace_child(<function selecting the j-th child>, new child of the same kind)
    ('rmk', k)            e.remove(k-th child ever created in this history) -- also children that are no longer (or never were) attached
    ('set', a)            e.xml_<a> = child(a)            (shortcut syntax)
    ('unset', a)          e.xml_<a> = None
@@ -94,6 +95,14 @@ def apply_op(lib, e, op, kids):
                 return 'n/a'
             c = lib.child(op[2]); kids.append(c)
             e.replace_child(ch[op[1]], c)
+        elif k == 'repc':
+            # replace_child(<callable selecting the op[1]-th child>, new child of the same kind)
+            ch = e.get_children(ordered=False)
+            if op[1] >= len(ch):
+                return 'n/a'
+            target = ch[op[1]]
+            c = lib.child(target.name); kids.append(c)
+            e.replace_child(lambda x, t=target: x is t, c)
         elif k == 'set':
             c = lib.child(op[1]); kids.append(c)
             setattr(e, 'xml_' + op[1].replace('-', '_'), c)
@@ -158,7 +167,7 @@ def present_model(h, outs):
     nkid = -1
     for op, out in zip(h, outs):
         k = op[0]
-        if k in ('add', 'addf', 'rep', 'set'):
+        if k in ('add', 'addf', 'rep', 'set', 'repc'):
             nkid += 1            # a child object is created whether or not the op succeeds
         if out != 'ok':
             continue
@@ -168,6 +177,8 @@ def present_model(h, outs):
             del cur[op[1]]; del ids[op[1]]
         elif k == 'rep':
             cur[op[1]] = op[2]
+            ids[op[1]] = nkid
+        elif k == 'repc':
             ids[op[1]] = nkid
         elif k == 'rmk':
             if op[1] in ids:
@@ -229,6 +240,7 @@ def histories(alphabet, k_add, with_rm=True, with_rep=True, dup_names=(), k_afte
                         yield tuple(seq) + (('rep', j, b),)
                     # same-kind replacement followed by removal of the replaced (now stale) child, and a double removal
                     a = seq[j][1]
+                    yield tuple(seq) + (('repc', j),)
                     yield tuple(seq) + (('rep', j, a), ('rmk', j))
                     yield tuple(seq) + (('rm', j), ('rmk', j))
     for a in dup_names:
